@@ -318,17 +318,22 @@ def run_memory(rng):
         for i in range(n // 4):
             body += shape
         return ('diff --git a/f.rs b/f.rs\n--- a/f.rs\n+++ b/f.rs\n@@ -1,%d +1,%d @@\n' % (n, n) + '\n'.join(body) + '\n').encode()
-    small = runner.run_delta(args, big(1000))
-    large = runner.run_delta(args, big(100000), timeout=120)
+    small = runner.run_delta(args, big(20000), measure_rss=True)
+    large = runner.run_delta(args, big(400000 if rng.random() < 0.7 else 1000000), timeout=300, measure_rss=True)
     if crashmod.classify(small) or crashmod.classify(large) or small.rc or large.rc:
         return [inconclusive('memory runs failed')]
-    delta_kb = large.maxrss_kb - small.maxrss_kb
+    if not small.hwm_kb or not large.hwm_kb:
+        return [inconclusive('resident-set high-water mark could not be sampled')]
+    # (the high-water mark of the delta process itself, sampled from /proc: ru_maxrss also counts what the harness had
+    # resident when it forked)
+    delta_kb = large.hwm_kb - small.hwm_kb
     sets = {'views': ['memory'], 'kinds': ['memory'], 'buffer_sizes': [str(buf)]}
-    if delta_kb > 20000:
-        return [violated('c11:memory-grows-with-input', 'peak RSS grows with the input size: %d KB for 10^3 lines, %d KB for 10^5 lines'
-                         % (small.maxrss_kb, large.maxrss_kb), '< 20 MB growth', delta_kb, run=small, sets=sets)]
-    o = held(sig=('memory', tuple(view), buf), nontrivial=True, counters={'memory_pairs': 1}, sets=sets,
-             sample={'rss_kb_1e3_lines': small.maxrss_kb, 'rss_kb_1e5_lines': large.maxrss_kb})
+    nl = large.stdin.count(b'\n')
+    if delta_kb > 4096:
+        return [violated('c11:memory-grows-with-input', 'resident memory grows with the input size: high-water mark %d KB for 2x10^4 lines, %d KB for %d lines'
+                         % (small.hwm_kb, large.hwm_kb, nl), '< 4 MB growth', delta_kb, run=small, sets=sets)]
+    o = held(sig=('memory', tuple(view), buf, nl), nontrivial=True, counters={'memory_pairs': 1}, sets=sets,
+             sample={'hwm_kb_2e4_lines': small.hwm_kb, 'hwm_kb_large': large.hwm_kb, 'large_lines': nl})
     o['executions'] = 2
     return [o]
 
